@@ -192,6 +192,17 @@ def plain(value: Any) -> Any:
     return value
 
 
+def poke_nested(mapping: Dict[str, Any]) -> None:
+    """The caller goes on using the nested dictionaries it passed in."""
+    for value in list(mapping.values()):
+        if isinstance(value, dict):
+            poke_nested(value)
+            for key in list(value):
+                if not isinstance(value[key], dict):
+                    value[key] = 'changed-by-caller-later'
+            value['zz_nested_later'] = 1
+
+
 def has_nested_mapping(desc: tuple, given: Dict[str, Any]) -> bool:
     return any(not R.is_port(e) and isinstance(given.get(name), dict) for name, e in desc[5])
 
@@ -316,6 +327,7 @@ def check_spec(desc: tuple) -> Dict[str, Any]:
                 violate('raw-inputs-differ', {'got': raw, 'given': snapshot})
             else:
                 # ... and stay as given when the caller goes on using its dictionary (e.g. for the next process)
+                poke_nested(caller)  # ... at every nesting level
                 caller['zz_later'] = 1
                 for key in list(snapshot):
                     caller[key] = 'overwritten-later'
@@ -337,6 +349,12 @@ def check_spec(desc: tuple) -> Dict[str, Any]:
                         pass
                 if plain(level) != before:
                     violate('inputs-mutable', {'path': list(path)}, level='.'.join(path) or '<top>')
+                    break
+                # the attribute view of the level shows the same values as the item view, also after those attempts
+                views = {k: plain(getattr(level, k, '<no attribute>')) for k in before if k.isidentifier()}
+                if views != {k: v for k, v in before.items() if k.isidentifier()}:
+                    violate('inputs-mutable', {'path': list(path), 'attribute_view': views, 'items': before},
+                            level='.'.join(path) or '<top>', through='attribute')
                     break
             proc.close()
         # what a process gets does not depend on the processes of the class built (and poked at) before it
